@@ -51,11 +51,17 @@ class GatherImpl:
         return t
 
     # ---- what the environment provides
-    async def body(self, t):
+    def body(self, t):
+        """A partial function whose work starts when it is CALLED (like a run_in_executor / ensure_future partial): the gate exists from
+        the call on, so a helper that calls it before holding the semaphore is seen running outside the bound."""
         g = self.loop.create_future()
         self.gate_of_task[asyncio.current_task()] = g
         self.gate[t] = g
-        return await g
+
+        async def wait():
+            return await g
+
+        return wait()
 
     async def _main(self):
         self.began = True
